@@ -4,6 +4,7 @@ import Flumine.Ladder
 import Flumine.Validation
 import Flumine.Controls
 import Flumine.DriverSim
+import Flumine.DriverWorld
 open Flumine Flumine.Proto
 
 def parseLadder? (s : String) : Option LadderDef :=
@@ -109,14 +110,30 @@ def handle (toks : List String) : String :=
   | "validate" :: rest => (handleValidate rest).getD "bad-op"
   | _ => "bad-op"
 
-partial def loop (h : IO.FS.Stream) (out : IO.FS.Stream) : IO Unit := do
+partial def loop (h : IO.FS.Stream) (out : IO.FS.Stream) (sess : DriverWorld.Session) : IO Unit := do
   let line ← h.getLine
   if line.isEmpty then return ()
   let toks := (line.trimAscii.toString.splitOn " ").filter (· ≠ "")
-  out.putStrLn (handle toks)
-  loop h out
+  match toks with
+  | t :: _ =>
+    if t.startsWith "w." then
+      match DriverWorld.step sess toks with
+      | some (sess', o) =>
+        match o with
+        | some txt => out.putStrLn txt
+        | none => pure ()
+        loop h out sess'
+      | none =>
+        out.putStrLn "bad-op"
+        loop h out sess
+    else
+      out.putStrLn (handle toks)
+      loop h out sess
+  | [] =>
+    out.putStrLn "bad-op"
+    loop h out sess
 
 def main : IO Unit := do
   let out ← IO.getStdout
-  loop (← IO.getStdin) out
+  loop (← IO.getStdin) out {}
   out.flush
